@@ -1302,10 +1302,19 @@ where
             if let Some(right_most_child_id) = right_child
                 && let Some(next_id) = next_sibling
             {
-                let next_page = self.get_page_mut(next_id)?;
+                // The divider between two interior siblings is the smallest key of the subtree on
+                // the right: the first cell of its left-most leaf (which is one level down only
+                // when the siblings sit just above the leaves).
+                let mut first_child = self.get_page_mut(next_id)?.child(0);
+                while let Some(id) = first_child {
+                    let page = self.get_page_mut(id)?;
+                    if page.is_leaf() {
+                        break;
+                    }
+                    first_child = page.child(0);
+                }
 
-                // Obtain the first child
-                if let Some(first_child_id) = next_page.child(0) {
+                if let Some(first_child_id) = first_child {
                     let child_page = self.get_page_mut(first_child_id)?;
                     let mut cell = child_page.owned_cell(0);
 
